@@ -98,6 +98,10 @@ static void* arena_alloc(size_t n, size_t align)
     size_t start = (g_bump + sizeof(BlkHdr) + align - 1) & ~(align - 1);
     size_t sz = (n + 15) & ~(size_t)15;
     if (sz == 0) sz = 16;
+    // one request for a quarter of the arena: no workload comes near that; it is what a container
+    // whose size field was corrupted (by a race in the code under test) asks for.  A reproduced
+    // violation of the memory-error family, not an infrastructure problem.
+    if (n > ARENA_SIZE / 4) failf("wild_allocation", "a single allocation of %zu bytes was requested", n);
     if (start + sz + 16 > ARENA_SIZE) failf("harness", "arena exhausted");
     BlkHdr* h = (BlkHdr*)(g_arena + start - sizeof(BlkHdr));
     h->magic = BLK_MAGIC;
